@@ -510,7 +510,11 @@ impl Deb822 {
                 }
                 i
             }
-            None => self.0.children().count(),
+            None => {
+                // The separating empty line must not merely terminate an unterminated last line
+                ensure_trailing_newline(&self.0);
+                self.0.children().count()
+            }
         };
         self.0
             .splice_children(insertion_point..insertion_point, to_insert);
@@ -601,6 +605,24 @@ impl Deb822 {
         let mut buf = String::new();
         r.read_to_string(&mut buf)?;
         Ok(Self::from_str_relaxed(&buf))
+    }
+}
+
+/// Terminate the last line below `node` if it lacks a newline.
+fn ensure_trailing_newline(node: &SyntaxNode) {
+    if let Some(last) = node.last_token() {
+        if last.kind() != NEWLINE {
+            let mut builder = GreenNodeBuilder::new();
+            builder.start_node(ENTRY.into());
+            builder.token(NEWLINE.into(), "\n");
+            builder.finish_node();
+            let newline = SyntaxNode::new_root_mut(builder.finish())
+                .first_token()
+                .unwrap();
+            let parent = last.parent().unwrap();
+            let count = parent.children_with_tokens().count();
+            parent.splice_children(count..count, vec![newline.into()]);
+        }
     }
 }
 
@@ -823,20 +845,7 @@ impl Paragraph {
 
     /// Terminate the last line of the paragraph, so that an appended entry starts on its own line.
     fn ensure_trailing_newline(&self) {
-        if let Some(last) = self.0.last_token() {
-            if last.kind() != NEWLINE {
-                let mut builder = GreenNodeBuilder::new();
-                builder.start_node(ENTRY.into());
-                builder.token(NEWLINE.into(), "\n");
-                builder.finish_node();
-                let newline = SyntaxNode::new_root_mut(builder.finish())
-                    .first_token()
-                    .unwrap();
-                let parent = last.parent().unwrap();
-                let count = parent.children_with_tokens().count();
-                parent.splice_children(count..count, vec![newline.into()]);
-            }
-        }
+        ensure_trailing_newline(&self.0);
     }
 
     /// Insert a new field
